@@ -73,7 +73,7 @@ def value_dense(step):
     if vk in ("int", "float", "np64", "torch0d"):
         return None, float(step["value"])
     if vk in ("np", "torch"):
-        return np.array(step["value"]["data"], dtype=np.float64).reshape(step["value"]["shape"]), None
+        return np.array([float(q) for q in step["value"]["data"]], dtype=np.float64).reshape(step["value"]["shape"]), None
     return dense_np(step["value"]), None
 
 
@@ -81,6 +81,8 @@ def spec_assign(x, step):
     """the dense array after the assignment, or SpecError when it cannot be honoured"""
     key = np_key(x.shape, step["key"]["entries"])
     arr, sc = value_dense(step)
+    if (arr is None and not math.isfinite(sc)) or (arr is not None and not np.all(np.isfinite(arr))):
+        raise SpecError("non-finite")      # a compressed tensor cannot hold inf / nan in one entry: cannot be honoured
     y = x.copy()
     if arr is None:
         y[key] = sc
@@ -102,9 +104,9 @@ def build_value(step):
     if vk == "torch0d":
         return torch.tensor(float(v), dtype=torch.float64)
     if vk == "np":
-        return np.array(v["data"], dtype=np.float64).reshape(v["shape"])
+        return np.array([float(q) for q in v["data"]], dtype=np.float64).reshape(v["shape"])
     if vk == "torch":
-        return torch.tensor(v["data"], dtype=torch.float64).reshape(v["shape"])
+        return torch.tensor([float(q) for q in v["data"]], dtype=torch.float64).reshape(v["shape"])
     if vk == "tn":
         return to_tn(v)
     raise ValueError(vk)
@@ -434,7 +436,35 @@ class Prop:
                 v = g_value(rng, bad, vk)
                 return {"key": {"top": "tuple", "entries": per}, "vkind": "tn" if vk.startswith("tn") else vk, "vsub": vk,
                         "value": v, "vbad": vbad}
-        for kind in ("int-oob", "too-many", "ell2", "value-shape"):
+            if kind == "nonfinite":
+                vk = rng.choice(["float", "float", "np64", "torch0d", "np", "torch"])
+                bad = rng.choice(["inf", "-inf", "nan"])
+                if vk in ("np", "torch"):
+                    per = [g_slice(rng, s, allow_empty=False) for s in shape]
+                    sel = sel_shape(shape, per)
+                    v = g_value(rng, sel, vk)
+                    if v is None or not v["data"]:
+                        return None
+                    v["data"][rng.randrange(len(v["data"]))] = bad
+                else:
+                    v = bad
+                return {"key": {"top": "tuple", "entries": per}, "vkind": vk, "vsub": vk, "value": v}
+            if kind in ("int-oob-empty", "value-shape-empty"):
+                if N < 2:
+                    return None
+                per = [g_slice(rng, s, allow_empty=False) for s in shape]
+                p, q = rng.sample(range(N), 2)
+                lo = rng.randint(0, shape[p])
+                per[p] = {"k": "slice", "a": lo, "b": rng.randint(0, lo), "s": None}          # empty
+                if kind == "int-oob-empty":
+                    per[q] = {"k": "int", "v": rng.choice([shape[q], -shape[q] - 1, shape[q] + 2]), "as": "int"}
+                    return {"key": {"top": "tuple", "entries": per}, "vkind": "float", "vsub": "float", "value": 7.0}
+                sel = sel_shape(shape, per)
+                bad = [5 if d == 0 else d for d in sel]
+                vk = rng.choice(["np", "torch"])
+                v = g_value(rng, bad, vk)
+                return {"key": {"top": "tuple", "entries": per}, "vkind": vk, "vsub": vk, "value": v, "vbad": "empty-selection"}
+        for kind in ("int-oob", "too-many", "ell2", "value-shape", "nonfinite", "int-oob-empty", "value-shape-empty"):
             for _ in range(250 if quick else 1500):
                 N = rng.choice([1, 2, 3, 4]); shape = g_shape(rng, N, hi=4 if N < 4 else 3)
                 tj = g_tensor(rng, shape, g_nou(rng, N))
